@@ -191,14 +191,20 @@ func (g *gen) rule() gRule {
 		ru.Name = pick(r, gRecordNames)
 	}
 	ru.Expr = pick(r, gExprs)
+	// one rule in three is "rich": several labels / annotations, so that removing or adding ONE entry of a map while others
+	// remain (and deleting only the trailing lines of a rule) are common edits
+	pl, pa := 4, 4
+	if r.Intn(3) == 0 {
+		pl, pa = 0, 0
+	}
 	for _, k := range gLabelKeys {
-		if r.Intn(4) == 0 {
+		if pl == 0 && r.Intn(4) > 0 || pl > 0 && r.Intn(pl) == 0 {
 			ru.Labels = append(ru.Labels, [2]string{k, pick(r, gLabelVals)})
 		}
 	}
 	if ru.Kind == "alert" {
 		for _, k := range gAnnKeys {
-			if r.Intn(4) == 0 {
+			if pa == 0 && r.Intn(4) > 0 || pa > 0 && r.Intn(pa) == 0 {
 				ru.Annots = append(ru.Annots, [2]string{k, pick(r, gLabelVals)})
 			}
 		}
@@ -261,28 +267,7 @@ func (g *gen) mutateRule(ru *gRule) string {
 		}
 		return "expr"
 	case 2:
-		if len(ru.Labels) > 0 && r.Intn(2) == 0 {
-			i := r.Intn(len(ru.Labels))
-			old := ru.Labels[i][1]
-			for ru.Labels[i][1] == old {
-				ru.Labels[i][1] = pick(r, gLabelVals)
-			}
-			return "label-value"
-		}
-		for _, k := range gLabelKeys {
-			has := false
-			for _, kv := range ru.Labels {
-				if kv[0] == k {
-					has = true
-				}
-			}
-			if !has {
-				ru.Labels = append(ru.Labels, [2]string{k, pick(r, gLabelVals)})
-				return "label-add"
-			}
-		}
-		ru.Labels = ru.Labels[1:]
-		return "label-del"
+		return g.mutateMap(&ru.Labels, gLabelKeys, "label")
 	case 3:
 		if ru.Kind == "alert" {
 			old := ru.For
@@ -298,12 +283,7 @@ func (g *gen) mutateRule(ru *gRule) string {
 		return "expr"
 	case 4:
 		if ru.Kind == "alert" {
-			if len(ru.Annots) > 0 {
-				ru.Annots = ru.Annots[1:]
-				return "annotation-del"
-			}
-			ru.Annots = append(ru.Annots, [2]string{pick(r, gAnnKeys), pick(r, gLabelVals)})
-			return "annotation-add"
+			return g.mutateMap(&ru.Annots, gAnnKeys, "annotation")
 		}
 		fallthrough
 	case 5:
@@ -325,6 +305,59 @@ func (g *gen) mutateRule(ru *gRule) string {
 		}
 		return "name"
 	}
+}
+
+// mutateMap changes a labels/annotations map: another value for one key, one entry removed (any position: first, middle,
+// last -- the others remain), or one entry added (any position).  Always returns a fresh slice.
+func (g *gen) mutateMap(m *[][2]string, keys []string, what string) string {
+	r := g.r
+	cur := append([][2]string{}, (*m)...)
+	var missing []string
+	for _, k := range keys {
+		has := false
+		for _, kv := range cur {
+			if kv[0] == k {
+				has = true
+			}
+		}
+		if !has {
+			missing = append(missing, k)
+		}
+	}
+	c := r.Intn(3)
+	if len(cur) == 0 || (c == 2 && len(missing) > 0) {
+		if len(missing) == 0 {
+			c = 1
+		} else {
+			kv := [2]string{pick(r, missing), pick(r, gLabelVals)}
+			pos := r.Intn(len(cur) + 1)
+			cur = append(cur[:pos], append([][2]string{kv}, cur[pos:]...)...)
+			*m = cur
+			return what + "-add"
+		}
+	}
+	if c == 0 || len(cur) == 0 {
+		i := r.Intn(len(cur))
+		old := cur[i][1]
+		for cur[i][1] == old {
+			cur[i][1] = pick(r, gLabelVals)
+		}
+		*m = cur
+		return what + "-value"
+	}
+	i := r.Intn(len(cur))
+	tag := what + "-del"
+	switch {
+	case len(cur) == 1:
+		tag += "-all"
+	case i == len(cur)-1:
+		tag += "-last(others remain)"
+	default:
+		tag += "(others remain)"
+	}
+	cur = append(cur[:i], cur[i+1:]...)
+	*m = cur
+	return tag
 }
 
 // cosmeticRule changes the text of a rule but not its parsed content.
